@@ -69,10 +69,8 @@ func ModelAdd(pre *sandbox.Snap, args []string) *AddModel {
 		case IsFileOnDisk(pre, c):
 			switch ir.Ignored(c) {
 			case "yes":
+				// "no form of add ever stages a path excluded by .goitignore": also when it is tracked already
 				m.ArgClasses = append(m.ArgClasses, "ignored-file")
-				if _, tr := idx0[c]; tr {
-					m.DontCare[c] = true
-				}
 			case "dontcare":
 				m.DontCare[c] = true
 				m.ArgClasses = append(m.ArgClasses, "ignore-unsettled")
@@ -99,9 +97,7 @@ func ModelAdd(pre *sandbox.Snap, args []string) *AddModel {
 				}
 				switch ir.Ignored(f) {
 				case "yes":
-					if _, tr := idx0[f]; tr {
-						m.DontCare[f] = true
-					}
+					// excluded: must not be (re-)staged, tracked or not
 				case "dontcare":
 					m.DontCare[f] = true
 				default:
@@ -116,7 +112,12 @@ func ModelAdd(pre *sandbox.Snap, args []string) *AddModel {
 				}
 			}
 		default:
-			if _, tr := idx0[c]; tr {
+			if _, tr := idx0[c]; tr && ir.Ignored(c) != "no" {
+				// tracked, deleted and excluded by a rule: "is unstaged" and "never staged/touched" pull in
+				// different directions; the statements do not settle it
+				m.DontCare[c] = true
+				m.ArgClasses = append(m.ArgClasses, "deleted-tracked-ignored")
+			} else if tr {
 				m.Gone[c] = true
 				m.ArgClasses = append(m.ArgClasses, "deleted-tracked-file")
 			} else if len(trackedBeneath(idx0, c)) > 0 {
@@ -454,7 +455,7 @@ func runC04(c *core.Ctx) {
 	n := c.Pick(500, 4000)
 	c.RunHistories(n, Registry["C04"].Mons, func(w *core.World) {
 		wts := map[string]int{
-			"edit-new": 14, "edit-mod": 10, "edit-rm": 8, "edit-rmdir": 4, "edit-same": 2, "edit-touch": 1,
+			"edit-new": 14, "edit-mod": 8, "edit-mod-samesize": 4, "edit-rm": 8, "edit-rmdir": 4, "edit-same": 2, "edit-touch": 1,
 			"add": 28, "add-all": 2, "rm": 16, "commit": 5, "commit-all": 1,
 			"restore-staged": 3, "reset": 2, "restore": 1,
 		}
